@@ -1,11 +1,12 @@
 (* C14 — proofs.  All statements hold for every size and every draw list that
    satisfies the generator contract; arithmetic by lia/nia with div/mod lemmas. *)
-From Coq Require Import ZArith List Bool Lia ZifyBool QArith.
+From Coq Require Import ZArith List Bool Lia ZifyBool QArith FinFun.
 Import ListNotations.
 From KD Require Import C14.Model C14.Spec.
 Open Scope Z_scope.
 
 Ltac zdm := Z.to_euclidean_division_equations.
+Ltac splits := repeat match goal with |- _ /\ _ => split end.
 
 (* ---------------- draws ---------------- *)
 Lemma next_int_ok : forall A lo hi ds (k : Z -> list draw -> res A) a,
@@ -18,7 +19,7 @@ Proof.
   destruct ((lo =? lo') && (hi =? hi')) eqn:E2; [|discriminate].
   apply andb_true_iff in E2. destruct E2 as [E2 E3].
   apply Z.eqb_eq in E2. apply Z.eqb_eq in E3. subst lo' hi'.
-  inversion D; subst. exists v, ds'. repeat split; auto; unfold draw_ok in *; lia.
+  inversion D; subst. exists v, ds'. splits; auto; unfold draw_ok in *; lia.
 Qed.
 
 Lemma done_ok : forall A ds (a b : A), done ds a = Ok b -> ds = [] /\ a = b.
@@ -27,6 +28,9 @@ Proof. intros A ds a b H. destruct ds; [inversion H; auto|discriminate]. Qed.
 Lemma bind_ok : forall A B (r : res A) (f : A -> res B) b,
   bind r f = Ok b -> exists a, r = Ok a /\ f a = Ok b.
 Proof. intros A B r f b H. destruct r; try discriminate. exists a. auto. Qed.
+
+Lemma Ok_inj : forall A (a b : A), Ok a = Ok b -> a = b.
+Proof. intros A a b H. congruence. Qed.
 
 (* ---------------- crops ---------------- *)
 Lemma get_params_ok : forall th tw h w ds p ds',
@@ -37,10 +41,10 @@ Proof.
   intros th tw h w ds p ds' Hth Htw D G. unfold get_params in G.
   destruct ((h + 1 <? th) || (w + 1 <? tw)) eqn:E1; [discriminate|].
   destruct ((w =? tw) && (h =? th)) eqn:E2.
-  - inversion G; subst. cbn. repeat split; auto; lia.
+  - inversion G; subst. cbn. splits; auto; lia.
   - apply next_int_ok in G; auto. destruct G as (i & ds1 & -> & Hi & D1 & G).
     apply next_int_ok in G; auto. destruct G as (j & ds2 & -> & Hj & D2 & G).
-    inversion G; subst. cbn. repeat split; auto; lia.
+    inversion G; subst. cbn. splits; auto; lia.
 Qed.
 
 Lemma pad_steps_nonneg : forall c H W,
@@ -48,7 +52,7 @@ Lemma pad_steps_nonneg : forall c H W,
   Forall pad_nonneg (pad_steps c H W).
 Proof.
   intros c H W P. unfold pad_steps.
-  repeat apply Forall_app; repeat split.
+  apply Forall_app; split; [|apply Forall_app; split].
   - destruct (c_padding c); [constructor; auto|constructor].
   - destruct (c_pin c && _) eqn:E; constructor; [|constructor]. cbn. lia.
   - destruct (c_pin c && _) eqn:E; constructor; [|constructor]. cbn. lia.
@@ -76,4 +80,666 @@ Proof.
   apply bind_ok in R. destruct R as ([p' ds'] & G & R).
   apply done_ok in R. destruct R as [-> R]. inversion R; subst.
   apply get_params_ok in G; auto. tauto.
+Qed.
+
+Lemma next_int_no_reject1 : forall A lo hi ds (k : Z -> list draw -> res A),
+  (forall v ds', k v ds' <> Reject 1) -> next_int lo hi ds k <> Reject 1.
+Proof.
+  intros A lo hi ds k K. unfold next_int.
+  destruct (hi <=? lo); [discriminate|].
+  destruct ds as [|[[lo' hi'] v] ds']; [discriminate|].
+  destruct ((lo =? lo') && (hi =? hi')); [apply K|discriminate].
+Qed.
+
+(* get_params never raises the "larger than input" error when the crop fits *)
+Lemma get_params_no_reject1 : forall th tw h w ds,
+  th <= h + 1 -> tw <= w + 1 -> get_params th tw h w ds <> Reject 1.
+Proof.
+  intros th tw h w ds A B. unfold get_params.
+  destruct ((h + 1 <? th) || (w + 1 <? tw)) eqn:E1; [lia|].
+  destruct ((w =? tw) && (h =? th)); [discriminate|].
+  apply next_int_no_reject1. intros i ds1. apply next_int_no_reject1. intros j ds2. discriminate.
+Qed.
+
+(* when the crop fits the (padded) image no error is raised at all *)
+Lemma get_params_fits_no_reject : forall th tw h w ds c,
+  th <= h -> tw <= w -> get_params th tw h w ds <> Reject c.
+Proof.
+  intros th tw h w ds c A B. unfold get_params.
+  destruct ((h + 1 <? th) || (w + 1 <? tw)) eqn:E1; [lia|].
+  destruct ((w =? tw) && (h =? th)); [discriminate|].
+  unfold next_int. destruct (h - th + 1 <=? 0) eqn:E2; [lia|].
+  destruct ds as [|[[lo hi] v] ds1]; [discriminate|].
+  destruct ((0 =? lo) && (h - th + 1 =? hi)); [|discriminate].
+  destruct (w - tw + 1 <=? 0) eqn:E3; [lia|].
+  destruct ds1 as [|[[lo2 hi2] v2] ds2]; [discriminate|].
+  destruct ((0 =? lo2) && (w - tw + 1 =? hi2)); discriminate.
+Qed.
+
+Lemma random_crop_fits_no_reject : forall c H W ds k,
+  c_th c <= fst (padded_dims c H W) -> c_tw c <= snd (padded_dims c H W) ->
+  random_crop c H W ds <> Reject k.
+Proof.
+  intros c H W ds k A B. unfold random_crop.
+  destruct (padded_dims c H W) as [Hp Wp]. cbn [fst snd] in *.
+  pose proof (get_params_fits_no_reject (c_th c) (c_tw c) Hp Wp ds k A B) as G.
+  destruct (get_params (c_th c) (c_tw c) Hp Wp ds) as [[p ds']| |]; cbn.
+  - destruct ds'; discriminate.
+  - intro E. inversion E; subst. congruence.
+  - discriminate.
+Qed.
+
+Lemma random_crop_pin_no_reject : forall c H W ds k,
+  c_pin c = true -> random_crop c H W ds <> Reject k.
+Proof.
+  intros c H W ds k P. destruct (pad_if_needed_fits c H W P). apply random_crop_fits_no_reject; auto.
+Qed.
+
+Lemma random_crop_pin_no_reject1 : forall c H W ds,
+  c_pin c = true -> random_crop c H W ds <> Reject 1.
+Proof.
+  intros c H W ds P. unfold random_crop.
+  pose proof (pad_if_needed_fits c H W P) as F.
+  destruct (padded_dims c H W) as [Hp Wp]. cbn [fst snd] in F.
+  pose proof (get_params_no_reject1 (c_th c) (c_tw c) Hp Wp ds ltac:(lia) ltac:(lia)) as G.
+  destruct (get_params (c_th c) (c_tw c) Hp Wp ds) as [[p ds']| |]; cbn.
+  - destruct ds'; discriminate.
+  - intro E. inversion E; subst. congruence.
+  - discriminate.
+Qed.
+
+Lemma simple_random_crop_ok : forall size c H W ds H1 W1 Hp Wp p,
+  0 <= c_th c -> 0 <= c_tw c -> draws_ok ds ->
+  simple_random_crop size c H W ds = Ok (H1, W1, (Hp, Wp, p)) ->
+  (H1, W1) = resize_dims size H W /\ (Hp, Wp) = padded_dims c H1 W1 /\
+  in_bounds Hp Wp p /\ has_size (c_th c) (c_tw c) p.
+Proof.
+  intros size c H W ds H1 W1 Hp Wp p Hth Htw D R. unfold simple_random_crop in R.
+  destruct (resize_dims size H W) as [H1' W1'].
+  apply bind_ok in R. destruct R as ([[Hp' Wp'] p'] & R & E). inversion E; subst.
+  split; [reflexivity|]. eapply random_crop_ok; eauto.
+Qed.
+
+(* the second crop of KDTwoRandomCrop *)
+Lemma two_loop_ok : forall fuel cnt tries omin omax th tw h w p0 ds o ds',
+  0 <= th -> 0 <= tw -> draws_ok ds ->
+  two_loop fuel cnt tries omin omax th tw h w p0 ds = Ok (o, ds') ->
+  t_p0 o = p0 /\ in_bounds h w (t_p1 o) /\ has_size th tw (t_p1 o) /\ draws_ok ds' /\
+  (t_inter o, t_union o) = overlap_parts p0 (t_p1 o) /\ t_union o <> 0 /\
+  (t_oot o = false ->
+     qz_le omin (t_inter o, t_union o) = true /\ qz_le (t_inter o, t_union o) omax = true).
+Proof.
+  induction fuel as [|f IH]; intros cnt tries omin omax th tw h w p0 ds o ds' Hth Htw D T; [discriminate|].
+  cbn [two_loop] in T. apply bind_ok in T. destruct T as ([p1 ds1] & G & T).
+  apply get_params_ok in G; auto. destruct G as (B & S & D1).
+  destruct (overlap_parts p0 p1) as [inter union] eqn:EO.
+  destruct (union =? 0) eqn:EU; [discriminate|].
+  destruct (qz_le omin (inter, union) && qz_le (inter, union) omax) eqn:EQ.
+  - inversion T; subst. cbn. apply andb_true_iff in EQ. splits; auto; try tauto. lia.
+  - destruct (cnt + 1 >=? tries) eqn:EC.
+    + inversion T; subst. cbn. splits; auto; try discriminate. lia.
+    + eapply IH in T; eauto.
+Qed.
+
+Lemma two_random_crop_ok : forall c tries omin omax H W ds Hp Wp o,
+  0 <= c_th c -> 0 <= c_tw c -> draws_ok ds ->
+  two_random_crop c tries omin omax H W ds = Ok (Hp, Wp, o) ->
+  (Hp, Wp) = padded_dims c H W /\
+  in_bounds Hp Wp (t_p0 o) /\ has_size (c_th c) (c_tw c) (t_p0 o) /\
+  in_bounds Hp Wp (t_p1 o) /\ has_size (c_th c) (c_tw c) (t_p1 o) /\
+  (t_inter o, t_union o) = overlap_parts (t_p0 o) (t_p1 o) /\ t_union o <> 0 /\
+  (t_oot o = false ->
+     qz_le omin (t_inter o, t_union o) = true /\ qz_le (t_inter o, t_union o) omax = true).
+Proof.
+  intros c tries omin omax H W ds Hp Wp o Hth Htw D R. unfold two_random_crop in R.
+  destruct (padded_dims c H W) as [Hp' Wp'].
+  apply bind_ok in R. destruct R as ([p0 ds0] & G & R).
+  apply bind_ok in R. destruct R as ([o' ds1] & T & R).
+  apply done_ok in R. destruct R as [-> R]. inversion R; subst.
+  apply get_params_ok in G; auto. destruct G as (B0 & S0 & D0).
+  apply two_loop_ok in T; auto. destruct T as (E0 & B1 & S1 & _ & EO & U & Q).
+  rewrite E0 in *. splits; auto; tauto.
+Qed.
+
+(* the recorded intersection is the area of the geometric intersection: 0 <= inter <= min(area0, area1) *)
+Lemma overlap_parts_bounds : forall p0 p1 inter union,
+  (let '(_, _, h0, w0) := p0 in 0 <= h0 /\ 0 <= w0) ->
+  (let '(_, _, h1, w1) := p1 in 0 <= h1 /\ 0 <= w1) ->
+  overlap_parts p0 p1 = (inter, union) ->
+  0 <= inter /\ inter <= union.
+Proof.
+  intros [[[i0 j0] h0] w0] [[[i1 j1] h1] w1] inter union [A0 A1] [B0 B1] E.
+  unfold overlap_parts, inter_ijkl in E. inversion E; subst; clear E.
+  set (a := Z.max 0 (Z.min (i0 + h0) (i1 + h1) - Z.max i0 i1)).
+  set (b := Z.max 0 (Z.min (j0 + w0) (j1 + w1) - Z.max j0 j1)).
+  assert (0 <= a <= h0) by (unfold a; lia). assert (0 <= b <= w0) by (unfold b; lia).
+  assert (a <= h1) by (unfold a; lia). assert (b <= w1) by (unfold b; lia).
+  clearbody a b. assert (0 <= a * b) by nia. assert (a * b <= h0 * w0) by nia.
+  assert (a * b <= h1 * w1) by nia. lia.
+Qed.
+
+(* ---------------- resized crop ---------------- *)
+Lemma rrc_attempts_some : forall fuel H W cands w h,
+  rrc_attempts fuel H W cands = Ok (Some (w, h)) -> 0 < w <= W /\ 0 < h <= H.
+Proof.
+  induction fuel as [|f IH]; intros H W cands w h R; cbn in R.
+  - destruct cands; discriminate.
+  - destruct cands as [|[w' h'] cs]; [discriminate|].
+    destruct ((0 <? w') && (w' <=? W) && (0 <? h') && (h' <=? H)) eqn:E.
+    + destruct cs; [|discriminate]. inversion R; subst. lia.
+    + eauto.
+Qed.
+
+Lemma rrc_fallback_in_bounds : forall H W rmin rmax fb r,
+  0 <= H -> 0 <= W -> 0 < fst rmin -> 0 < snd rmin -> 0 < fst rmax -> 0 < snd rmax ->
+  fb_contract H W rmin rmax fb r ->
+  in_bounds H W (rrc_fallback H W fb r) /\
+  (0 < H -> 0 < W -> (fb = FbWhole \/ 1 <= r) -> positive (rrc_fallback H W fb r)).
+Proof.
+  intros H W [n0 d0] [n1 d1] fb r HH HW A B C D F. cbn [fst snd] in *.
+  unfold rrc_fallback, fb_contract, round_ok in *. cbn [fst snd] in *.
+  destruct fb.
+  - destruct F as [F1 [F2 F3]].
+    assert (0 <= r) by nia. assert (r <= H) by nia.
+    cbn. replace (W - W) with 0 by lia. rewrite Z.div_0_l by lia.
+    assert (0 <= (H - r) / 2) by (apply Z.div_pos; lia).
+    assert ((H - r) / 2 + r <= H) by (zdm; lia).
+    split; [lia|]. intros ? ? [?|?]; [discriminate|lia].
+  - destruct F as [F1 [F2 F3]].
+    assert (0 <= r) by nia. assert (r <= W) by nia.
+    cbn. replace (H - H) with 0 by lia. rewrite Z.div_0_l by lia.
+    assert (0 <= (W - r) / 2) by (apply Z.div_pos; lia).
+    assert ((W - r) / 2 + r <= W) by (zdm; lia).
+    split; [lia|]. intros ? ? [?|?]; [discriminate|lia].
+  - cbn. replace (H - H) with 0 by lia. replace (W - W) with 0 by lia. cbn.
+    split; [lia|]. intros; lia.
+Qed.
+
+Lemma rrc_ok : forall H W rmin rmax cands ds fb r p,
+  0 <= H -> 0 <= W -> 0 < fst rmin -> 0 < snd rmin -> 0 < fst rmax -> 0 < snd rmax ->
+  draws_ok ds -> fb_contract H W rmin rmax fb r ->
+  rrc H W cands ds fb r = Ok p ->
+  in_bounds H W p /\ (0 < H -> 0 < W -> (fb = FbWhole \/ 1 <= r) -> positive p).
+Proof.
+  intros H W rmin rmax cands ds fb r p HH HW A B C D Dr F R. unfold rrc in R.
+  apply bind_ok in R. destruct R as (o & At & R). destruct o as [[w h]|].
+  - apply rrc_attempts_some in At.
+    apply next_int_ok in R; auto. destruct R as (i & ds1 & -> & Hi & D1 & R).
+    apply next_int_ok in R; auto. destruct R as (j & ds2 & -> & Hj & D2 & R).
+    apply done_ok in R. destruct R as [_ <-]. cbn. splits; lia.
+  - apply done_ok in R. destruct R as [_ <-]. apply (rrc_fallback_in_bounds H W rmin rmax fb r); auto.
+Qed.
+
+(* the sampled branch needs no contract at all: the guard 0 < w <= W, 0 < h <= H is sufficient *)
+Lemma rrc_sampled_ok : forall H W cands ds fb r w h p,
+  draws_ok ds -> rrc_attempts 10 H W cands = Ok (Some (w, h)) ->
+  rrc H W cands ds fb r = Ok p ->
+  in_bounds H W p /\ positive p /\ has_size h w p.
+Proof.
+  intros H W cands ds fb r w h p Dr At R. unfold rrc in R. rewrite At in R. cbn [bind] in R.
+  apply rrc_attempts_some in At.
+  apply next_int_ok in R; auto. destruct R as (i & ds1 & -> & Hi & D1 & R).
+  apply next_int_ok in R; auto. destruct R as (j & ds2 & -> & Hj & D2 & R).
+  apply done_ok in R. destruct R as [_ <-]. cbn. splits; lia.
+Qed.
+
+(* ---------------- erasing ---------------- *)
+Definition cand_nonneg (c : Z * Z) : Prop := 0 <= fst c /\ 0 <= snd c.
+
+Lemma erase_rect_ok : forall fuel H W cands ds o cs ds',
+  Forall cand_nonneg cands -> draws_ok ds ->
+  erase_rect fuel H W cands ds = Ok (o, cs, ds') ->
+  Forall cand_nonneg cs /\ draws_ok ds' /\
+  match o with Some p => erase_ok H W p | None => True end.
+Proof.
+  induction fuel as [|f IH]; intros H W cands ds o cs ds' C D E; cbn in E.
+  - inversion E; subst. auto.
+  - destruct cands as [|[h w] cs0]; [discriminate|]. inversion C as [|? ? [C1 C2] C3]; subst. cbn in C1, C2.
+    destruct ((w <? W) && (h <? H)) eqn:G.
+    + apply next_int_ok in E; auto. destruct E as (top & ds1 & -> & Ht & D1 & E).
+      apply next_int_ok in E; auto. destruct E as (lft & ds2 & -> & Hl & D2 & E).
+      inversion E; subst. split; [auto|]. split; [auto|]. cbn. lia.
+    + eauto.
+Qed.
+
+Lemma erase_rects_ok : forall n H W cands ds l,
+  Forall cand_nonneg cands -> draws_ok ds ->
+  erase_rects n H W cands ds = Ok l -> Forall (erase_ok H W) l /\ (length l <= n)%nat.
+Proof.
+  induction n as [|m IH]; intros H W cands ds l C D E; cbn [erase_rects] in E.
+  - destruct cands; [|discriminate]. apply done_ok in E. destruct E as [_ <-]. split; auto.
+  - apply bind_ok in E. destruct E as ([[o cs] ds1] & R & E).
+    apply erase_rect_ok in R; auto. destruct R as (C1 & D1 & O).
+    apply bind_ok in E. destruct E as (l' & R' & E). inversion E; subst.
+    apply IH in R'; auto. destruct R' as [F L]. destruct o; split; auto; cbn; lia.
+Qed.
+
+Lemma erasing_ok : forall apply minc maxc H W cands ds l,
+  Forall cand_nonneg cands -> draws_ok ds ->
+  erasing apply minc maxc H W cands ds = Ok l ->
+  Forall (erase_ok H W) l /\ (length l <= Z.to_nat (Z.max minc (maxc - 1)))%nat /\ (apply = false -> l = []).
+Proof.
+  intros apply minc maxc H W cands ds l C D E. unfold erasing in E.
+  destruct apply; cbn [negb] in E.
+  - destruct (minc =? maxc) eqn:EM.
+    + destruct (minc =? 0) eqn:E0; [discriminate|].
+      apply erase_rects_ok in E; auto. destruct E as [F L]. splits; auto; [lia|discriminate].
+    + apply next_int_ok in E; auto. destruct E as (n & ds1 & -> & Hn & D1 & E).
+      destruct (n =? 0) eqn:E0; [discriminate|].
+      apply erase_rects_ok in E; auto. destruct E as [F L]. splits; auto; [lia|discriminate].
+  - destruct cands; [|discriminate]. apply done_ok in E. destruct E as [_ <-]. splits; auto; cbn; lia.
+Qed.
+
+(* ---------------- spec augment ---------------- *)
+From Coq Require Import Lqa.
+
+Lemma q_trunc_nonneg : forall q, (0 <= q)%Q -> 0 <= q_trunc q /\ (inject_Z (q_trunc q) <= q)%Q.
+Proof.
+  intros [n d] Hq. unfold Qle in Hq. cbn in Hq. unfold q_trunc. cbn [Qnum Qden].
+  assert (0 <= n) by lia.
+  rewrite Z.quot_div_nonneg by lia. split.
+  - apply Z.div_pos; lia.
+  - unfold Qle, inject_Z. cbn. pose proof (Z.mul_div_le n (Zpos d) ltac:(lia)). lia.
+Qed.
+
+Lemma q_trunc_small_neg : forall q, (-1 < q)%Q -> (q <= 0)%Q -> q_trunc q = 0.
+Proof.
+  intros [n d] H1 H2. unfold Qlt, Qle in *. cbn in *. unfold q_trunc. cbn [Qnum Qden].
+  assert (n = - (- n)) as -> by lia. rewrite Z.quot_opp_l by lia.
+  rewrite Z.quot_small by lia. reflexivity.
+Qed.
+
+Lemma inject_Z_lt_inv : forall a b, (inject_Z a < inject_Z b + 1)%Q -> a <= b.
+Proof. intros a b H. unfold Qlt, inject_Z, Qplus in H. cbn in H. lia. Qed.
+
+Lemma mask_axis_ok : forall size P value y minv s e,
+  specaug_contract size P value y minv ->
+  mask_axis P value minv = Ok (Some (s, e)) ->
+  1 <= P /\ 0 <= e - s < P /\ (P <= size -> 0 <= s /\ e <= size).
+Proof.
+  intros size P value y minv s e (V0 & V1 & Y0 & Y1 & M) E. unfold mask_axis in E.
+  destruct (P <? 1) eqn:EP; [discriminate|].
+  destruct (q_trunc minv + q_trunc value - q_trunc minv <? P) eqn:EL; [|discriminate].
+  inversion E; subst; clear E.
+  destruct (q_trunc_nonneg value V0) as [T0 T1].
+  split; [lia|]. split; [lia|]. intros PS.
+  assert (inject_Z P <= inject_Z size)%Q as PSq by (rewrite <- Zle_Qle; lia).
+  destruct M as [[M0 M1]|[M0 M1]].
+  - destruct (q_trunc_nonneg minv M0) as [S0 S1]. split; [lia|].
+    apply inject_Z_lt_inv. rewrite inject_Z_plus. lra.
+  - rewrite q_trunc_small_neg; auto; [|lra]. split; [lia|].
+    rewrite Zle_Qle. rewrite inject_Z_plus. change (inject_Z 0) with 0%Q. lra.
+Qed.
+
+(* whatever the oracle values: a masked index is an index of the axis *)
+Lemma masked_inside : forall size m k, masked size m k = true -> 0 <= k < size.
+Proof. intros size [[s e]|] k H; cbn in H; [lia|discriminate]. Qed.
+
+Lemma masked_iff : forall size s e k,
+  masked size (Some (s, e)) k = true <-> 0 <= k < size /\ s <= k < e.
+Proof. intros. cbn. lia. Qed.
+
+(* ---------------- semantic segmentation pairs ---------------- *)
+Lemma apply_geom_same : forall g x seg,
+  same_geometry x seg -> same_geometry (apply_geom g x) (apply_geom g seg).
+Proof.
+  intros g x seg (Eh & Ew & Es). destruct g as [[[[l t] r] b]|[[[top lft] h] w]|nh nw| |]; cbn;
+    unfold same_geometry; cbn; rewrite <- ?Eh, <- ?Ew; splits; auto; intros; rewrite ?Es; reflexivity.
+Qed.
+
+Lemma semseg_run_same : forall ops x seg ds gs x' seg',
+  same_geometry x seg -> semseg_run ops x seg ds = Ok (gs, x', seg') -> same_geometry x' seg'.
+Proof.
+  induction ops as [|o ops IH]; intros x seg ds gs x' seg' S R; cbn in R.
+  - apply done_ok in R. destruct R as [_ R]. inversion R; subst. auto.
+  - apply bind_ok in R. destruct R as ([g ds1] & St & R).
+    apply bind_ok in R. destruct R as ([[gs1 x1] seg1] & R & E). inversion E; subst.
+    eapply IH in R; eauto. apply apply_geom_same; auto.
+Qed.
+
+Lemma gimg_id_same : forall H W, same_geometry (gimg_id H W) (gimg_id H W).
+Proof. intros. unfold same_geometry. auto. Qed.
+
+Lemma semseg_crop_params_ok : forall th tw H W ds p ds',
+  0 <= th -> 0 <= tw -> 0 <= H -> 0 <= W -> draws_ok ds ->
+  semseg_crop_params th tw H W ds = Ok (p, ds') ->
+  in_bounds H W p /\ has_size (Z.min H th) (Z.min W tw) p /\ draws_ok ds'.
+Proof.
+  intros th tw H W ds p ds' A B C D Dr E. unfold semseg_crop_params in E.
+  apply next_int_ok in E; auto. destruct E as (top & ds1 & -> & Ht & D1 & E).
+  apply next_int_ok in E; auto. destruct E as (lft & ds2 & -> & Hl & D2 & E).
+  inversion E; subst. cbn. splits; auto; lia.
+Qed.
+
+Lemma semseg_crop_loop_ok : forall n th tw H W p ds p' ds',
+  0 <= th -> 0 <= tw -> 0 <= H -> 0 <= W -> draws_ok ds ->
+  in_bounds H W p /\ has_size (Z.min H th) (Z.min W tw) p ->
+  semseg_crop_loop n th tw H W p ds = Ok (p', ds') ->
+  in_bounds H W p' /\ has_size (Z.min H th) (Z.min W tw) p' /\ draws_ok ds'.
+Proof.
+  induction n as [|m IH]; intros th tw H W p ds p' ds' A B C D Dr I E; cbn in E.
+  - inversion E; subst. tauto.
+  - apply bind_ok in E. destruct E as ([p1 ds1] & G & E).
+    apply semseg_crop_params_ok in G; auto. destruct G as (G1 & G2 & G3).
+    eapply IH in E; eauto.
+Qed.
+
+Lemma semseg_pad_params_ok : forall th tw H W,
+  pad_nonneg (semseg_pad_params th tw H W) /\
+  pad_dims (H, W) (semseg_pad_params th tw H W) = (Z.max H th, Z.max W tw).
+Proof.
+  intros. unfold semseg_pad_params, pad_dims, pad_nonneg. cbn [fst snd].
+  set (ph := Z.max 0 (th - H)). set (pw := Z.max 0 (tw - W)).
+  assert (0 <= ph) by (unfold ph; lia). assert (0 <= pw) by (unfold pw; lia).
+  destruct (ph mod 2 =? 1) eqn:E1; destruct (pw mod 2 =? 1) eqn:E2;
+    (split; [splits; try (apply Z.div_pos; lia); zdm; lia | f_equal; unfold ph, pw in *; zdm; lia]).
+Qed.
+
+Lemma semseg_step_ok : forall o H W ds g ds',
+  sop_wf o -> 0 <= H -> 0 <= W -> draws_ok ds ->
+  semseg_step o H W ds = Ok (g, ds') ->
+  geom_ok g H W /\ draws_ok ds' /\ 0 <= fst (geom_dims g (H, W)) /\ 0 <= snd (geom_dims g (H, W)) /\
+  match o with
+  | SPad th tw => geom_dims g (H, W) = (Z.max H th, Z.max W tw)
+  | SCrop th tw _ => geom_dims g (H, W) = (Z.min H th, Z.min W tw)
+  | SRandResize nh nw | SResize nh nw => geom_dims g (H, W) = (nh, nw)
+  | SFlip _ | SOther => geom_dims g (H, W) = (H, W)
+  end.
+Proof.
+  intros o H W ds g ds' Wf HH HW D E. destruct o; cbn in E, Wf.
+  - inversion E; subst. destruct (semseg_pad_params_ok th tw H W) as [P1 P2].
+    cbn [geom_ok geom_dims]. rewrite P2. cbn [fst snd]. splits; auto; lia.
+  - inversion E; subst. cbn. splits; auto; lia.
+  - inversion E; subst. destruct applied; cbn; splits; auto.
+  - destruct (10 <? Z.of_nat redraws); [discriminate|].
+    apply bind_ok in E. destruct E as ([p ds1] & G & E).
+    apply semseg_crop_params_ok in G; try lia; auto. destruct G as (G1 & G2 & G3).
+    apply bind_ok in E. destruct E as ([p2 ds2] & L & E). inversion E; subst.
+    eapply semseg_crop_loop_ok in L; eauto; try lia. destruct L as (L1 & L2 & L3).
+    destruct p2 as [[[i j] h] w]. cbn in *. destruct L2 as [-> ->]. splits; auto; lia.
+  - inversion E; subst. cbn. splits; auto; lia.
+  - inversion E; subst. cbn. splits; auto.
+Qed.
+
+Lemma apply_geom_dims : forall g im, (gh (apply_geom g im), gw (apply_geom g im)) = geom_dims g (gh im, gw im).
+Proof. intros [[[[l t] r] b]|[[[top lft] h] w]|nh nw| |] im; reflexivity. Qed.
+
+Lemma semseg_run_geoms_ok : forall ops x seg ds gs x' seg',
+  Forall sop_wf ops -> 0 <= gh x -> 0 <= gw x -> draws_ok ds ->
+  semseg_run ops x seg ds = Ok (gs, x', seg') ->
+  geoms_ok gs (gh x, gw x) /\ (gh x', gw x') = fold_left (fun hw g => geom_dims g hw) gs (gh x, gw x).
+Proof.
+  induction ops as [|o ops IH]; intros x seg ds gs x' seg' Wf HH HW D R; cbn in R.
+  - apply done_ok in R. destruct R as [_ R]. inversion R; subst. cbn. auto.
+  - inversion Wf; subst.
+    apply bind_ok in R. destruct R as ([g ds1] & St & R).
+    apply bind_ok in R. destruct R as ([[gs1 x1] seg1] & R & E). inversion E; subst.
+    apply semseg_step_ok in St; auto. destruct St as (G & D1 & P1 & P2 & _).
+    pose proof (apply_geom_dims g x) as AD.
+    eapply IH in R; eauto.
+    + destruct R as [R1 R2]. cbn [geoms_ok fold_left fst snd]. rewrite <- AD. auto.
+    + rewrite <- AD in P1. exact P1.
+    + rewrite <- AD in P2. exact P2.
+Qed.
+
+(* pixels shown after any sequence of pad / crop / resize / flip come from inside the input *)
+Lemma apply_geom_sources : forall H0 W0 g im,
+  match g with GResize _ _ => 0 < gh im /\ 0 < gw im | _ => True end ->
+  sources_inside H0 W0 im -> sources_inside H0 W0 (apply_geom g im).
+Proof.
+  intros H0 W0 g im P S. destruct g as [[[[l t] r] b]|[[[top lft] h] w]|nh nw| |]; unfold sources_inside in *; cbn; intros y x I.
+  - destruct (inside (gh im) (gw im) (y - t) (x - l)) eqn:E; auto. apply S; auto.
+  - destruct (inside (gh im) (gw im) (top + y) (lft + x)) eqn:E; auto. apply S; auto.
+  - apply S. unfold inside in *. destruct P as [Ph Pw].
+    assert (0 <= y < nh /\ 0 <= x < nw) as [Hy Hx] by lia.
+    assert (0 <= y * gh im / nh) by (apply Z.div_pos; nia).
+    assert (y * gh im / nh < gh im) by (apply Z.div_lt_upper_bound; nia).
+    assert (0 <= x * gw im / nw) by (apply Z.div_pos; nia).
+    assert (x * gw im / nw < gw im) by (apply Z.div_lt_upper_bound; nia).
+    lia.
+  - apply S. unfold inside in *. lia.
+  - apply S; auto.
+Qed.
+
+Definition sop_pos (o : sop) : Prop :=
+  match o with
+  | SPad th tw | SCrop th tw _ => 0 < th /\ 0 < tw
+  | SRandResize nh nw | SResize nh nw => 0 < nh /\ 0 < nw
+  | SFlip _ | SOther => True
+  end.
+
+Lemma sop_pos_wf : forall o, sop_pos o -> sop_wf o.
+Proof. intros []; cbn; lia. Qed.
+
+Lemma gimg_id_sources : forall H W, sources_inside H W (gimg_id H W).
+Proof. intros H W y x I. cbn in *. exact I. Qed.
+
+Lemma semseg_run_sources : forall H0 W0 ops x seg ds gs x' seg',
+  Forall sop_pos ops -> 0 < gh x -> 0 < gw x -> draws_ok ds ->
+  sources_inside H0 W0 x -> sources_inside H0 W0 seg -> same_geometry x seg ->
+  semseg_run ops x seg ds = Ok (gs, x', seg') ->
+  sources_inside H0 W0 x' /\ sources_inside H0 W0 seg' /\ 0 < gh x' /\ 0 < gw x'.
+Proof.
+  induction ops as [|o ops IH]; intros x seg ds gs x' seg' Wf HH HW D Sx Ss SG R; cbn in R.
+  - apply done_ok in R. destruct R as [_ R]. inversion R; subst. auto.
+  - inversion Wf as [|? ? Po Pr]; subst.
+    apply bind_ok in R. destruct R as ([g ds1] & St & R).
+    apply bind_ok in R. destruct R as ([[gs1 x1] seg1] & R & E). inversion E; subst.
+    pose proof St as St'.
+    apply semseg_step_ok in St'; auto using sop_pos_wf; try lia.
+    destruct St' as (G & D1 & _ & _ & Dm).
+    pose proof (apply_geom_dims g x) as AD.
+    destruct SG as (Eh & Ew & Es).
+    assert (0 < gh (apply_geom g x) /\ 0 < gw (apply_geom g x)) as [Q1 Q2].
+    { assert (0 < fst (geom_dims g (gh x, gw x)) /\ 0 < snd (geom_dims g (gh x, gw x))).
+      { destruct o; cbn in Po; rewrite Dm; cbn; lia. }
+      rewrite <- AD in H. cbn in H. exact H. }
+    eapply IH in R; eauto.
+    + apply apply_geom_sources; auto. destruct g; auto.
+    + apply apply_geom_sources; auto. destruct g; auto. rewrite <- Eh, <- Ew. auto.
+    + apply apply_geom_same. unfold same_geometry. auto.
+Qed.
+
+(* KDSemsegOverlappedMultiCrop: every window lies inside the image and has the crop size *)
+Lemma multicrop_ok : forall ch cw H W l,
+  0 < ch -> 0 < cw -> 0 < H -> 0 < W ->
+  multicrop_windows ch cw H W = Ok l ->
+  Forall (fun p => in_bounds H W p /\ has_size ch cw p) l /\ l <> [].
+Proof.
+  intros ch cw H W l Pch Pcw PH PW E. unfold multicrop_windows in E.
+  destruct ((ch mod 2 =? 0) && (cw mod 2 =? 0)) eqn:E2; cbn [negb] in E; [|discriminate].
+  destruct (ch =? 0) eqn:E3; [discriminate|].
+  destruct (H mod ch =? 0) eqn:E4; cbn [negb] in E; [|discriminate].
+  destruct (cw =? 0) eqn:E5; [discriminate|].
+  destruct (W mod cw =? 0) eqn:E6; cbn [negb] in E; [|discriminate].
+  apply Ok_inj in E. subst l.
+  assert (1 <= ch / 2 /\ 2 * (ch / 2) = ch) as [Oh Eh] by (zdm; lia).
+  assert (1 <= cw / 2 /\ 2 * (cw / 2) = cw) as [Ow Ew] by (zdm; lia).
+  assert (ch <= H).
+  { pose proof (Z.div_mod H ch ltac:(lia)). assert (H mod ch = 0) by lia.
+    assert (1 <= H / ch) by (destruct (Z_lt_le_dec (H / ch) 1); [nia|lia]). nia. }
+  assert (cw <= W).
+  { pose proof (Z.div_mod W cw ltac:(lia)). assert (W mod cw = 0) by lia.
+    assert (1 <= W / cw) by (destruct (Z_lt_le_dec (W / cw) 1); [nia|lia]). nia. }
+  set (oh := ch / 2) in *. set (ow := cw / 2) in *.
+  assert (0 <= (H - ch) / oh) by (apply Z.div_pos; lia).
+  assert (0 <= (W - cw) / ow) by (apply Z.div_pos; lia).
+  split.
+  - apply Forall_forall. intros p Hp. apply in_flat_map in Hp. destruct Hp as (i & Hi & Hp).
+    apply in_map_iff in Hp. destruct Hp as (j & <- & Hj). apply in_seq in Hi. apply in_seq in Hj.
+    assert (Z.of_nat i <= (H - ch) / oh) by lia. assert (Z.of_nat j <= (W - cw) / ow) by lia.
+    pose proof (Z.mul_div_le (H - ch) oh ltac:(lia)). pose proof (Z.mul_div_le (W - cw) ow ltac:(lia)).
+    cbn. splits; try lia; nia.
+  - destruct (Z.to_nat (1 + (H - ch) / oh)) as [|r] eqn:ER; [lia|].
+    destruct (Z.to_nat (1 + (W - cw) / ow)) as [|c] eqn:EC; [lia|].
+    cbn. discriminate.
+Qed.
+
+(* ---------------- patchify / unpatchify ---------------- *)
+Lemma div_mul_add : forall a b p, 0 <= p < b -> (a * b + p) / b = a /\ (a * b + p) mod b = p.
+Proof.
+  intros a b p Hp. split.
+  - rewrite Z.div_add_l by lia. rewrite Z.div_small by lia. lia.
+  - rewrite Z.add_comm. rewrite Z.mod_add by lia. apply Z.mod_small; lia.
+Qed.
+
+Lemma unpatchify_patchify_image : forall A ph pw lw (t : t3 A) c y x,
+  0 < ph -> 0 < pw -> 0 <= x < lw * pw ->
+  unpatchify_image ph pw lw (patchify_image ph pw lw t) c y x = t c y x.
+Proof.
+  intros A ph pw lw t c y x Pph Ppw Hx. unfold unpatchify_image, patchify_image.
+  assert (0 <= x / pw < lw) as Hb.
+  { split; [apply Z.div_pos; lia|apply Z.div_lt_upper_bound; lia]. }
+  destruct (div_mul_add (y / ph) lw (x / pw) Hb) as [-> ->].
+  f_equal.
+  - pose proof (Z.div_mod y ph ltac:(lia)). lia.
+  - pose proof (Z.div_mod x pw ltac:(lia)). lia.
+Qed.
+
+Lemma patchify_unpatchify_image : forall A ph pw lw (u : t4 A) c l p q,
+  0 < lw -> 0 <= p < ph -> 0 <= q < pw ->
+  patchify_image ph pw lw (unpatchify_image ph pw lw u) c l p q = u c l p q.
+Proof.
+  intros A ph pw lw u c l p q Plw Hp Hq. unfold unpatchify_image, patchify_image.
+  destruct (div_mul_add (l / lw) ph p Hp) as [-> ->].
+  destruct (div_mul_add (l mod lw) pw q Hq) as [-> ->].
+  f_equal. pose proof (Z.div_mod l lw ltac:(lia)). lia.
+Qed.
+
+Lemma unpatchify_patchify : forall A ph pw (t : t3 A) c y x,
+  0 < ph -> 0 < pw -> unpatchify ph pw (patchify ph pw t) c y x = t c y x.
+Proof.
+  intros A ph pw t c y x Pph Ppw. unfold unpatchify, patchify. f_equal.
+  - pose proof (Z.div_mod y ph ltac:(lia)). lia.
+  - pose proof (Z.div_mod x pw ltac:(lia)). lia.
+Qed.
+
+Lemma patchify_unpatchify : forall A ph pw (u : t5 A) c a b p q,
+  0 <= p < ph -> 0 <= q < pw -> patchify ph pw (unpatchify ph pw u) c a b p q = u c a b p q.
+Proof.
+  intros A ph pw u c a b p q Hp Hq. unfold unpatchify, patchify.
+  destruct (div_mul_add a ph p Hp) as [-> ->]. destruct (div_mul_add b pw q Hq) as [-> ->]. reflexivity.
+Qed.
+
+(* with the recorded lh, lw: the patch index and the in-patch offsets of every pixel are in range *)
+Lemma patchify_params_ok : forall ph pw H W lh lw,
+  0 < ph -> 0 < pw -> 0 <= H -> 0 <= W ->
+  patchify_params ph pw H W = Ok (lh, lw) ->
+  lh * ph = H /\ lw * pw = W /\
+  forall y x, 0 <= y < H -> 0 <= x < W ->
+    0 <= y / ph * lw + x / pw < lh * lw /\ 0 <= y mod ph < ph /\ 0 <= x mod pw < pw.
+Proof.
+  intros ph pw H W lh lw Pph Ppw HH HW E. unfold patchify_params in E.
+  destruct ((H mod ph =? 0) && (W mod pw =? 0)) eqn:EM; [|discriminate]. inversion E; subst; clear E.
+  assert (H / ph * ph = H) by (zdm; nia). assert (W / pw * pw = W) by (zdm; nia).
+  splits; auto. intros y x Hy Hx.
+  assert (0 <= y / ph < H / ph) by (split; [apply Z.div_pos; lia|apply Z.div_lt_upper_bound; lia]).
+  assert (0 <= x / pw < W / pw) by (split; [apply Z.div_pos; lia|apply Z.div_lt_upper_bound; lia]).
+  splits; try (apply Z.mod_pos_bound; lia); nia.
+Qed.
+
+(* ---------------- patch shuffle ---------------- *)
+Lemma index_of_spec : forall perm j, In j perm ->
+  0 <= index_of j perm < Z.of_nat (length perm) /\ nth (Z.to_nat (index_of j perm)) perm (-1) = j.
+Proof.
+  induction perm as [|x r IH]; intros j I; [destruct I|].
+  cbn [index_of length]. destruct (x =? j) eqn:E.
+  - apply Z.eqb_eq in E. subst. cbn. split; [lia|reflexivity].
+  - destruct I as [->|I]; [rewrite Z.eqb_refl in E; discriminate|].
+    destruct (IH j I) as [B N]. split; [lia|].
+    replace (Z.to_nat (1 + index_of j r)) with (S (Z.to_nat (index_of j r))) by lia. cbn. exact N.
+Qed.
+
+Lemma argsort_length : forall perm, length (argsort perm) = length perm.
+Proof. intros. unfold argsort. rewrite map_length, seq_length. reflexivity. Qed.
+
+Lemma argsort_nth : forall perm l, 0 <= l < Z.of_nat (length perm) ->
+  nth (Z.to_nat l) (argsort perm) (-1) = index_of l perm.
+Proof.
+  intros perm l Hl. unfold argsort.
+  rewrite nth_indep with (d' := index_of (Z.of_nat 0) perm) by (rewrite map_length, seq_length; lia).
+  rewrite map_nth with (f := fun j => index_of (Z.of_nat j) perm).
+  rewrite seq_nth by lia. f_equal. lia.
+Qed.
+
+Lemma perm_argsort : forall perm l, is_perm perm -> 0 <= l < Z.of_nat (length perm) ->
+  nth (Z.to_nat (nth (Z.to_nat l) (argsort perm) (-1))) perm (-1) = l.
+Proof.
+  intros perm l P Hl. rewrite argsort_nth by auto. apply index_of_spec. apply P. exact Hl.
+Qed.
+
+Lemma unshuffle_shuffle : forall A perm (u : t4 A) c l p q,
+  is_perm perm -> 0 <= l < Z.of_nat (length perm) ->
+  shuffle (argsort perm) (shuffle perm u) c l p q = u c l p q.
+Proof. intros. unfold shuffle. rewrite perm_argsort; auto. Qed.
+
+(* the argsort of a permutation is again a permutation of the same indices *)
+Lemma argsort_in_range : forall perm l, is_perm perm -> 0 <= l < Z.of_nat (length perm) ->
+  0 <= nth (Z.to_nat l) (argsort perm) (-1) < Z.of_nat (length perm).
+Proof. intros perm l P Hl. rewrite argsort_nth by auto. apply index_of_spec. apply P. exact Hl. Qed.
+
+(* the other order: a permutation (every index occurs, so none occurs twice) is undone from the left as well *)
+Lemma is_perm_facts : forall perm, is_perm perm ->
+  NoDup perm /\ forall v, In v perm -> 0 <= v < Z.of_nat (length perm).
+Proof.
+  intros perm P. set (L := map Z.of_nat (seq 0 (length perm))).
+  assert (NL : NoDup L).
+  { unfold L. apply FinFun.Injective_map_NoDup; [intros a b E; lia|apply seq_NoDup]. }
+  assert (IL : incl L perm).
+  { intros v Hv. unfold L in Hv. apply in_map_iff in Hv. destruct Hv as (n & <- & Hn). apply in_seq in Hn. apply P. lia. }
+  assert (LL : (length perm <= length L)%nat) by (unfold L; rewrite map_length, seq_length; lia).
+  split.
+  - eapply NoDup_incl_NoDup; eauto.
+  - intros v Hv. pose proof (NoDup_length_incl NL LL IL v Hv) as Hin.
+    unfold L in Hin. apply in_map_iff in Hin. destruct Hin as (n & <- & Hn). apply in_seq in Hn. lia.
+Qed.
+
+Lemma index_of_nth : forall perm n, NoDup perm -> (n < length perm)%nat ->
+  index_of (nth n perm (-1)) perm = Z.of_nat n.
+Proof.
+  induction perm as [|x r IH]; intros n ND Hn; [cbn in Hn; lia|].
+  inversion ND as [|? ? Hx NDr]; subst. destruct n as [|n'].
+  - cbn. rewrite Z.eqb_refl. reflexivity.
+  - cbn [nth index_of length] in *. destruct (x =? nth n' r (-1)) eqn:E.
+    + apply Z.eqb_eq in E. exfalso. apply Hx. rewrite E. apply nth_In. lia.
+    + rewrite IH by (auto; lia). lia.
+Qed.
+
+Lemma shuffle_unshuffle : forall A perm (u : t4 A) c l p q,
+  is_perm perm -> 0 <= l < Z.of_nat (length perm) ->
+  shuffle perm (shuffle (argsort perm) u) c l p q = u c l p q.
+Proof.
+  intros A perm u c l p q P Hl. unfold shuffle.
+  destruct (is_perm_facts perm P) as [ND RG].
+  assert (In (nth (Z.to_nat l) perm (-1)) perm) as Hin by (apply nth_In; lia).
+  rewrite argsort_nth by (apply RG; exact Hin).
+  rewrite index_of_nth by (auto; lia). f_equal. lia.
+Qed.
+
+(* ---------------- norm / denorm ---------------- *)
+Open Scope Q_scope.
+Lemma denorm_norm : forall m s x, ~ s == 0 -> kd_denorm m s (kd_norm m s x) == x.
+Proof. intros m s x S. unfold kd_denorm, kd_norm, tv_normalize. field. auto. Qed.
+
+Lemma norm_denorm : forall m s x, ~ s == 0 -> kd_norm m s (kd_denorm m s x) == x.
+Proof. intros m s x S. unfold kd_denorm, kd_norm, tv_normalize. field. auto. Qed.
+
+Lemma range_denorm_norm : forall x, range_denorm (range_norm x) == x.
+Proof. intros x. unfold range_denorm, range_norm, tv_normalize. field. Qed.
+
+Lemma range_norm_denorm : forall x, range_norm (range_denorm x) == x.
+Proof. intros x. unfold range_denorm, range_norm, tv_normalize. field. Qed.
+
+(* KDImageRangeNorm is KDImageNorm with mean = std = 1/2 *)
+Lemma range_is_half : forall x, range_norm x == kd_norm (1 # 2) (1 # 2) x /\ range_denorm x == kd_denorm (1 # 2) (1 # 2) x.
+Proof. intros x. unfold range_denorm, range_norm, kd_norm, kd_denorm, tv_normalize. split; field. Qed.
+Lemma range_both : forall x, range_denorm (range_norm x) == x /\ range_norm (range_denorm x) == x.
+Proof. intro x. split; [apply range_denorm_norm|apply range_norm_denorm]. Qed.
+Close Scope Q_scope.
+
+Lemma is_perm_example : is_perm [2; 0; 3; 1].
+Proof.
+  intros l Hl. cbn in Hl.
+  assert (l = 0 \/ l = 1 \/ l = 2 \/ l = 3) as HH by lia.
+  destruct HH as [E|[E|[E|E]]]; subst l; cbn; auto.
 Qed.
